@@ -15,7 +15,8 @@ RULE = ("Hypothesis-generated rotations (uniform quaternions, axis-angle with an
         "list {0,1e-16..1e-3,pi/2,pi-1e-3..pi-1e-12,pi} and dense bands next to 0 and pi, products of "
         "exact quarter turns), translations 1e-6..1e9, scales 1e-4..1e4, near-miss matrices at "
         "controlled distance; non-trivial = angle within 1e-3 of 0 or pi, or |t| >= 1e6, or "
-        "|log10 s| >= 2, or a near-miss matrix; distinct by SHA-1 of the canonical case")
+        "|log10 s| >= 2, or a near-miss matrix; distinct by SHA-1 of the canonical case"
+        ' Round-3 addition: a history of helper calls on genuine elements before the membership queries (process-wide numeric state).')
 ASSUMPTIONS = ["reference Rodrigues/atan2-angle/quaternion conversions in vf/refmodel.py are correct",
                "tolerances: 1e-9 abs for exp/log/angle, 64*eps*(1+|t|) for SE(3) products, 1e-12 rel for the Sim(3) scale"]
 PI = math.pi
